@@ -14,6 +14,7 @@ import (
 	aggkitsync "github.com/agglayer/aggkit/sync"
 	aggkittypes "github.com/agglayer/aggkit/types"
 	"github.com/ethereum/go-ethereum/common"
+	"github.com/ethereum/go-ethereum/core/types"
 	"pgregory.net/rapid"
 
 	"verifharness/ev"
@@ -24,7 +25,7 @@ import (
 // C15 — the GER oracle injects only finalized, current, not-yet-present roots.
 
 const c15Rule = "case = L1 history (info leaves at generated blocks) and a schedule over {L1 produces blocks / finality advances, the info " +
-	"tree syncer processes the next k blocks (lagging or ahead of finality), oracle tick, transient error of HeaderByNumber / " +
+	"tree syncer processes the next k blocks (lagging or ahead of finality), L1 reorg above the finalized block (the syncer is rewound and sees the new fork later), oracle tick, transient error of HeaderByNumber / " +
 	"GetLatestInfoUntilBlock / IsGERInjected / InjectGER, external injection on L2}; the real AggOracle tick body runs over the " +
 	"real L1 info store; oracle: safety = every injected GER is the GER of the latest leaf at or below a block that the L1 " +
 	"client reported as finalized to this oracle, and was not already on L2; bounded progress = once the syncer has processed " +
@@ -108,6 +109,8 @@ func c15Prop(rt *rapid.T, rec *ev.Recorder) {
 		behindTick bool
 		caughtUp   int    // consecutive fault-free ticks with the syncer at or past an unchanged finalized block
 		caughtFin  uint64 // the finalized block of that streak
+		forkSalt   byte
+		reorgs     int
 	)
 	chain.Hook = func(ch *fakechain.Chain, call fakechain.Call) error {
 		if call.Method == "HeaderByNumber" {
@@ -134,7 +137,55 @@ func c15Prop(rt *rapid.T, rec *ev.Recorder) {
 	}
 	nSteps := rapid.IntRange(10, 120).Draw(rt, "steps")
 	for step := 0; step < nSteps; step++ {
-		switch rapid.SampledFrom([]string{"l1", "l1", "final", "final", "sync", "sync", "tick", "tick", "tick", "tick", "fault", "external"}).Draw(rt, "op") {
+		switch rapid.SampledFrom([]string{"l1", "l1", "final", "final", "sync", "sync", "tick", "tick", "tick", "tick", "fault", "external", "reorg"}).Draw(rt, "op") {
+		case "reorg":
+			// L1 replaces its blocks from f on (f above the finalized block, hence above every block reported as finalized to
+			// the oracle); the info tree syncer is rewound if it had processed any of them and will see the new fork later
+			tip := chain.Tip()
+			if tip <= finalized {
+				continue
+			}
+			f := finalized + 1 + uint64(rapid.IntRange(0, int(tip-finalized-1)).Draw(rt, "forkDepth"))
+			var keptLeaves []c15Leaf
+			for _, l := range leaves {
+				if l.Block < f {
+					keptLeaves = append(keptLeaves, l)
+				}
+			}
+			leaves = keptLeaves
+			var keptPending []aggkitsync.Block
+			for _, b := range pending {
+				if b.Num < f {
+					keptPending = append(keptPending, b)
+				}
+			}
+			pending = keptPending
+			if processed >= f {
+				if err := store.VerifReorg(bg, f); err != nil {
+					fatal(rt, "INCONCLUSIVE: store refused a reorg: %v", err)
+				}
+				processed = f - 1
+			}
+			nNew := int(tip-f) + 1 + rapid.IntRange(0, 2).Draw(rt, "forkGrowth")
+			var suffix [][]types.Log
+			for i := 0; i < nNew; i++ {
+				suffix = append(suffix, nil)
+			}
+			chain.Fork(f, suffix)
+			forkSalt++
+			for num := f; num <= chain.Tip(); num++ {
+				parent := chain.HashOf(num - 1)
+				var evs []interface{}
+				for k, nl := 0, rapid.SampledFrom([]int{0, 0, 1, 1, 2}).Draw(rt, "nLeaves"); k < nl; k++ {
+					mer, rer := common.Hash{0x33, byte(num), byte(k), byte(len(leaves)), forkSalt}, common.Hash{0x44, byte(num >> 8), byte(k), forkSalt}
+					evs = append(evs, l1infotreesync.Event{UpdateL1InfoTree: &l1infotreesync.UpdateL1InfoTree{BlockPosition: uint64(k), MainnetExitRoot: mer, RollupExitRoot: rer, ParentHash: parent, Timestamp: num}})
+					leaves = append(leaves, c15Leaf{Block: num, GER: ref.GER(mer, rer), Idx: len(leaves)})
+				}
+				pending = append(pending, aggkitsync.Block{Num: num, Hash: chain.HashOf(num), Events: evs})
+			}
+			chain.SetPointers(chain.Tip(), chain.Tip(), finalized)
+			reorgs++
+			trace = append(trace, fmt.Sprintf("reorg@%d(+%d)", f, nNew))
 		case "l1":
 			n := rapid.IntRange(1, 3).Draw(rt, "nBlocks")
 			for i := 0; i < n; i++ {
@@ -276,6 +327,7 @@ func c15Prop(rt *rapid.T, rec *ev.Recorder) {
 	nt := len(sender.injected) >= 2 && behindTick
 	rec.Case(nt, fmt.Sprint(trace))
 	rec.ClassN("injections", len(sender.injected))
+	rec.ClassN("l1_reorgs_above_the_finalized_block", reorgs)
 	if behindTick {
 		rec.Class("schedules_with_syncer_behind_tick")
 	}
